@@ -195,7 +195,7 @@ Exec(cmds, i, x) ==
 InitResumed(st0, n0, next0) ==
   /\ now = n0
   /\ LET rw == R!Rewind(st0, n0)
-         x0 == [buf |-> <<>>, wseq |-> 1, pend |-> <<>>, pubs |-> <<>>, mon |-> Mon0, idlePending |-> FALSE, outcome |-> "none",
+         x0 == [buf |-> R!Rehydrate(st0), wseq |-> 1, pend |-> <<>>, pubs |-> <<>>, mon |-> Mon0, idlePending |-> FALSE, outcome |-> "none",
                 wake |-> IF TimeoutMs = -1 THEN {} ELSE {[at |-> n0 + TimeoutMs, seq |-> 0, tick |-> [k |-> "timeout"]]}]
          x == Exec(rw.cmds, 1, x0)
      IN /\ bs = rw.st /\ buf = x.buf /\ wake = x.wake /\ wseq = x.wseq /\ pend = x.pend /\ pubs = x.pubs /\ mon = x.mon
